@@ -102,6 +102,17 @@ theorem sql_passes :
     ∧ Gen.Datasets.sqlLinearQuery = ["return select(self.table)"]
     ∧ Gen.Datasets.sqlShuffleQuery = ["return select(self.table).order_by(func.random())"] := by decide
 
+/-- Nothing parsed outlives an iterator object (the premise of `Props.C17.consumers_independent`:
+    the state of two consumers is a pair of states): the `datasets` dict of `DatasetBase` is
+    created and never read or written again, the iterator constructors take only the data source
+    and the flag, the module has no module-level variable; together with `csv_shuffle_start`
+    (`rows = [… for row in d]` is a new list per `start()`). -/
+theorem no_shared_rows :
+    Gen.Datasets.datasetsAttrUses = ["self.datasets = {}"]
+    ∧ Gen.Datasets.iteratorCtorParams =
+        ["CSVDatasetLinearIterator(datasource,repeat)", "SQLDatasetIterator(engine,table,repeat)"]
+    ∧ Gen.Datasets.moduleLevelAssignments = [] := by decide
+
 /-- datasets repeat unless the recipe says otherwise -/
 theorem default_repeat : Gen.Datasets.defaultRepeat = defaultRepeat
     ∧ Gen.Datasets.sqlDefaultRepeat = defaultRepeat ∧ Gen.Datasets.sqlDefaultMode = "linear" := by decide
